@@ -141,6 +141,9 @@ func (t *tr) expr(e ast.Expr) string {
 		case "false":
 			return ".bool false"
 		}
+		if x.Name == t.recv && t.recv != "" {
+			return "(.glob \"self\")"
+		}
 		if x.Obj == nil && !t.tparams[x.Name] { // unresolved in file scope: another file's package-level name
 			return fmt.Sprintf("(.glob %s)", lq(x.Name))
 		}
@@ -499,6 +502,8 @@ func (t *tr) stmt(s ast.Stmt) []string {
 		return []string{t.unsupported("branch "+x.Tok.String(), x)}
 	case *ast.BlockStmt:
 		return []string{fmt.Sprintf(".ifs [] (.bool true) %s []", t.block(x.List))}
+	case *ast.SwitchStmt:
+		return t.switchStmt(x)
 	}
 	return []string{t.unsupported(fmt.Sprintf("%T", s), s)}
 }
@@ -548,4 +553,79 @@ func progsFile(repo string) string {
 	}
 	b.WriteString("end Ioc.Progs\n")
 	return b.String()
+}
+
+
+// hasBareBreak: an unlabelled `break` that would leave the switch (not one inside a nested loop)
+func hasBareBreak(stmts []ast.Stmt) bool {
+	found := false
+	for _, s := range stmts {
+		ast.Inspect(s, func(n ast.Node) bool {
+			switch y := n.(type) {
+			case *ast.ForStmt, *ast.RangeStmt, *ast.SwitchStmt, *ast.TypeSwitchStmt, *ast.SelectStmt, *ast.FuncLit:
+				return false
+			case *ast.BranchStmt:
+				if y.Tok == token.BREAK || y.Tok == token.FALLTHROUGH {
+					found = true
+				}
+			}
+			return true
+		})
+	}
+	return found
+}
+
+// switchStmt: `switch init; tag { case a, b: … default: … }` becomes `$tag := tag` and an if/else chain (first matching
+// clause, `default` last wherever it is written). Refused when a clause contains `break`/`fallthrough` (their meaning
+// inside a switch differs from the one MiniGo gives them).
+func (t *tr) switchStmt(x *ast.SwitchStmt) []string {
+	var clauses []*ast.CaseClause
+	var deflt *ast.CaseClause
+	for _, c := range x.Body.List {
+		cc := c.(*ast.CaseClause)
+		if hasBareBreak(cc.Body) {
+			return []string{t.unsupported("switch with break/fallthrough", x)}
+		}
+		if cc.List == nil {
+			deflt = cc
+		} else {
+			clauses = append(clauses, cc)
+		}
+	}
+	var pre []string
+	if x.Init != nil {
+		pre = append(pre, t.stmt(x.Init)...)
+	}
+	tagVar := "(.bool true)"
+	if x.Tag != nil {
+		pre = append(pre, fmt.Sprintf(".define [\"$tag\"] %s", t.expr(x.Tag)))
+		tagVar = "(.var \"$tag\")"
+	}
+	chain := "[]"
+	if deflt != nil {
+		chain = t.block(deflt.Body)
+	}
+	for i := len(clauses) - 1; i >= 0; i-- {
+		cc := clauses[i]
+		cond := ""
+		for j, e := range cc.List {
+			one := fmt.Sprintf("(.bin \"==\" %s %s)", tagVar, t.expr(e))
+			if x.Tag == nil {
+				one = t.expr(e)
+			}
+			if j == 0 {
+				cond = one
+			} else {
+				cond = fmt.Sprintf("(.bin \"||\" %s %s)", cond, one)
+			}
+		}
+		chain = fmt.Sprintf("[.ifs [] %s %s %s]", cond, t.block(cc.Body), chain)
+	}
+	// the whole switch is one block, so that `$tag` and the init variables go out of scope after it
+	inner := strings.TrimSuffix(strings.TrimPrefix(chain, "["), "]")
+	all := append(pre, inner)
+	if inner == "" {
+		all = pre
+	}
+	return []string{fmt.Sprintf(".ifs [] (.bool true) [%s] []", strings.Join(all, ",\n  "))}
 }
